@@ -20,12 +20,12 @@ from ..oracles import sigmodel as sm
 PID = "C06"
 LEVEL = "exploration"
 RULE = ("full product of operation sequences (depth<=2 quick / 3 thorough, 4 for the plain FunctionSignal) over the "
-        "19-operation signal alphabet x all read masks, on 7 kinds of function-backed signals (plain 1- and 2-component, "
+        "21-operation signal alphabet x all read masks, on 7 kinds of function-backed signals (plain 1- and 2-component, "
         "ZHS/AVZ/ARZ Askaryan, FFT/Full thermal noise under OwnedRandom); and of attribute-assignment sequences "
         "(depth<=2/3) x read masks on Specialized/Basic/Uniform/Layered tracers and their paths; distinct_nontrivial = "
         "distinct (kind, op sequence, mask) with at least one read before a mutation")
 ASSUMPTIONS = ["in-place element writes into arrays and mutation of the ice object are not public mutating operations",
-               "differential oracle: a history with reads is compared against the same history without reads on a fresh object"]
+               "differential oracle: a history with reads is compared against the same history without reads on a fresh object; ray objects also against a newly constructed object with the final defining attributes"]
 CHUNK = 1
 DETERMINISM_CASES = 2
 
@@ -42,7 +42,9 @@ SIG_OPS = ["shift+3", "shift-5", "imul2", "idiv4", "filt_delay2", "filt_lowpass"
            # derive a child, mutate the child, keep going on the parent (no-ops on the parent if nothing is shared)
            "child_with_times_sub", "child_copy_filter", "child_sum_filter_buf",
            # augmented assignment: the attribute is mutated in place and the *same* object is assigned back
-           "times_iadd"]
+           "times_iadd",
+           # same number of samples, twice the step (a cache keyed by length alone cannot tell the grids apart)
+           "times_stretch", "with_times_stretch"]
 SIG_KINDS = ["plain_early", "plain_two", "zhs", "avz", "arz", "fftnoise", "fullnoise"]
 
 
@@ -171,6 +173,19 @@ def _apply_sig(obj, mod, op):
         obj.times += 2 * dt
         if mod:
             mod.times = [x + 2 * dt for x in mod.times]
+    elif op in ("times_stretch", "with_times_stretch"):
+        old = np.array(obj.times)
+        new = old[0] + 2.0 * (old - old[0])
+        if op == "times_stretch":
+            obj.times = new
+            if mod:
+                mod.times = [float(x) for x in new]
+        else:
+            obj = obj.with_times(new)
+            if mod:
+                mod = mod.copy()
+                mod.cls = "Function"
+                mod.times = [float(x) for x in new]
     elif op == "child_with_times_sub":
         child = obj.with_times(np.array(obj.times)[2:-1].copy())
         child.set_buffers(trailing=2 * dt)
@@ -199,6 +214,8 @@ def _obs_sig(obj):
 def _same(a, b, tol=0.0):
     if isinstance(a, (tuple, list)):
         return len(a) == len(b) and all(_same(x, y, tol) for x, y in zip(a, b))
+    if isinstance(a, str) or isinstance(b, str):
+        return isinstance(a, str) and isinstance(b, str) and a == b
     if isinstance(a, np.ndarray) or isinstance(b, np.ndarray):
         a = np.asarray(a, dtype=float)
         b = np.asarray(b, dtype=float)
@@ -453,15 +470,19 @@ def _run_ray(kind, seq, mask):
     return reads, _obs_ray(kind, obj), obj
 
 
-class _Parent:
-    """Stand-in for a parent tracer: a path constructor only reads these defining attributes from it."""
-
-    def __init__(self, obj):
-        self.from_point = np.array(obj.from_point, dtype=float).copy()
-        self.to_point = np.array(obj.to_point, dtype=float).copy()
-        self.ice = obj.ice
-        if hasattr(obj, "dz"):
-            self.dz = obj.dz
+def _parent_tracer(kind, obj):
+    """A newly constructed tracer of the matching class with the path's own defining attributes: what a path is built from."""
+    from pyrex import ray_tracing as rt
+    a = np.array(obj.from_point, dtype=float).copy()
+    b = np.array(obj.to_point, dtype=float).copy()
+    if kind == "spec_path":
+        return rt.SpecializedRayTracer(a, b, obj.ice, dz=obj.dz)
+    if kind == "basic_path":
+        return rt.BasicRayTracer(a, b, obj.ice, dz=obj.dz)
+    if kind == "uniform_path":
+        return rt.UniformRayTracer(a, b, obj.ice)
+    from pyrex.custom.layered_ice import LayeredRayTracer
+    return LayeredRayTracer(a, b, obj.ice)
 
 
 def _fresh_ray(kind, obj):
@@ -477,11 +498,11 @@ def _fresh_ray(kind, obj):
             new.max_reflections = obj.max_reflections
         return new
     if kind == "layered_path":
-        return cls(_Parent(obj), obj.paths)
+        return cls(_parent_tracer(kind, obj), obj.paths)
     if kind == "uniform_path":
-        new = cls(_Parent(obj), obj.theta0, obj._reflections)
+        new = cls(_parent_tracer(kind, obj), obj.theta0, obj._reflections)
     else:
-        new = cls(_Parent(obj), obj.theta0, obj.direct)
+        new = cls(_parent_tracer(kind, obj), obj.theta0, obj.direct)
     if bool(new.direct) != bool(obj.direct):
         new.direct = obj.direct          # assigned before anything has been read from `new`
     return new
